@@ -2,7 +2,7 @@
 from checks import kern
 from checks import full_step
 LEAN_TARGETS = ["drv_step", "QmcProofs.SamplerStep", "QmcProofs.SamplerCluster", "QmcProps.C04", "drv_c04", "QmcProps.C08", "drv_c08", "QmcProps.C02", "drv_c02"]
-BINS = ["fullstep", "c04", "c08", "c02", "kern"]
+BINS = ["fullstep", "c04", "c04m", "c08", "c02", "kern"]
 
 # Theorems of other properties that C04's claim rests on: the generic sampler's timestep starts with the diagonal
 # update (C08: per-slot ratio, weight step, off-diagonal operators untouched, max-weight table) and, with
@@ -84,6 +84,14 @@ RULE = ("generic samplers over four interaction families (two-site exchange-type
         "composition matches / at least one call accepted; distinct = distinct input line. "
         "Each replayed loop also carries the consistency of the result (c=) and the hypotheses of Qmc.C04.loopUpdate_pres on the input "
         "(hyp=: Op.WF, positive matrix elements, periodic world lines), evaluated independently on both sides. "
+        "constant diagonal tables: family of Ising-symmetric diagonal bonds + one-/two-variable constant DIAGONAL tables [c,c], [c,c,c,c] "
+        "(make_diagonal_interaction, and the _and_offset variant as control) with and without genuine constant full single-site terms, random "
+        "and four fixed systems, in gate (extra token: is_constant() bits per bond; oracle: constant iff full matrix with all entries equal, "
+        "gate iff all symmetric and a constant full single-variable matrix) and in traj (40 full steps each; clustercheck case per step: after "
+        "the diagonal and the cluster update no op of weight 0, op constant flag == bond's). "
+        "measure (bin c04m): timesteps / timesteps_sample / timesteps_measure with t in 0..25, frequencies None/1/2/3/4/7/0, on samplers with "
+        "non-zero offsets and small <n>, against a manual timestep/get_n loop on a clone with the same RNG (oracle: energy == -(sum n/#measured)/beta + offset "
+        "to 1e-12, samples/cadence, same final configuration); the driver recomputes count and energy with C17's measureLoop/measureEnergy. "
         "nonergodic: the two fixed F20 witness samplers ([g,g,g,g] + field on one spin; the same on two spins with an exchange term), "
         "5 fixed seeds x 500 timesteps, count of off-diagonal single-site operators (seed-independent input; known finding). "
         "hbtable: generic samplers with heat bath on, 3-5 variables, a 3-variable term (diag / diag_off / full) whose unique maximum sits at "
@@ -110,6 +118,8 @@ def main(ck):
             ck.correspond(name, "drv_c04", cases)
         # known finding F20 (non-ergodic interaction sets; fixed, seed-independent witness inputs)
         ck.correspond("nonergodic-witness", "drv_c04", ck.harness("c04", ["nonergodic"]))
+        # the default measuring methods (timesteps / timesteps_sample / timesteps_measure) on generic samplers with offsets
+        ck.correspond("measured-energy", "drv_c04", ck.harness("c04m", ["measure"]))
         # heat-bath bond-weight table of generic samplers with 3-/4-variable terms (oracle on the real code only)
         ck.correspond("heatbath-table-maxima", "drv_c04", ck.harness("c04", ["hbtable"]))
         # the diagonal-update kernels C04 composes (same harness modes as C08 / C02)
